@@ -14,7 +14,7 @@ def _c07_case(c):
 CONFIG = {
     "properties_file": "Properties/C07.v",
     "proof_files": ["Proofs/GraphMem.v"],
-    "model_files": ["Model/GraphMem.v"],
+    "model_files": ["Generated/GC07.v", "Model/GraphMem.v"],
     "extract": "XC07.v",
     "ml_main": "c07_main.ml",
     "harness": "c07",
@@ -25,7 +25,7 @@ CONFIG = {
         "content.Successors is a function of the descriptor key (media type, digest, size): `content` is a universally quantified parameter of every theorem; nothing is assumed about SHA-2 or encoding/json (the differential run exercises the real content.Successors on real manifests)",
         "`sok n` (content.Successors succeeds for n) is a universally quantified parameter; the only failure modelled is errdef.ErrNotFound (IndexAll skips it); undecodable manifest bytes are outside the generator's universe",
         "sync.RWMutex makes index / Remove / Predecessors atomic: concurrency is modelled as an arbitrary interleaving (permutation) of atomic operations; IndexAll's concurrent traversal (syncutil.Go + status.Tracker) is modelled by a sequential work-list whose final graph is proved to depend only on the set of reachable fetchable nodes",
-        "IndexAll/load theorems have the hypothesis `ok = true` (fuel not exhausted); the extracted runner uses fuel 100000 and prints FUEL otherwise",
+        "IndexAll/load theorems have the hypothesis `ok = true` (fuel not exhausted); C07_reload_terminates proves a sufficient fuel exists for every finite closed universe; the extracted runner uses fuel 100000 and prints FUEL otherwise",
         "store level: Push = storage push then Memory.Index, Delete(AutoGC=false) = Memory.Remove + storage delete, reopen/gcIndex = fresh graph + IndexAll per root; that the OCI root list contains every stored manifest (tag-by-digest on push, index.json) is the store invariant of C08, here a hypothesis of C07_reload_equiv and checked on every run by the end-to-end oracle",
         "OCI GC that does not return (defect F1, property C09) or returns an error (index.json naming swept blobs after an earlier GC, defect F2, properties C08/C09) is not judged by C07; the harness avoids histories whose GC outcome depends on Go map order",
     ],
